@@ -67,6 +67,15 @@ func main() {
 		code := runC13(tierArg())
 		cleanupAll()
 		os.Exit(code)
+	case "c13-input":
+		// c13-input <tier> <index>: print one input of the C13 campaign (debugging aid)
+		sc := newScratch("c13in")
+		src, _ := buildPigeon(sc)
+		idx := 0
+		fmt.Sscan(os.Args[3], &idx)
+		ins := c13Inputs(envSeed(), c13Tier(os.Args[2]), src)
+		fmt.Printf("name=%s class=%s flags=%q attrs=%v\n%s\n", ins[idx].Name, ins[idx].Class, ins[idx].Flags, ins[idx].Attrs, ins[idx].Grammar)
+		cleanupAll()
 	case "dump-specs":
 		r := newRng(envSeed(), hashLabel("c16"))
 		for i := 0; i < 32; i++ {
